@@ -92,6 +92,16 @@ def check_frame(ctx, p, vertices, edges, cells, label):
         ctx.violation("tension-table-ids", p, observed=[int(x) for x in df["id"].values][:12],
                       expected=exp_internal[:12], kind=label)
         return None
+    dfg = call(frame.get_gt_tensions)
+    if [int(x) for x in dfg["id"].values] != exp_internal:
+        ctx.violation("reference-tension-table-ids", p, observed=[int(x) for x in dfg["id"].values][:12],
+                      expected=exp_internal[:12], kind=label)
+        return None
+    dfa = call(frame.get_tensions, with_border=True)
+    if [int(x) for x in dfa["id"].values] != list(range(len(got_list))):
+        ctx.violation("full-tension-table-ids", p, observed=[int(x) for x in dfa["id"].values][:12],
+                      expected=f"0..{len(got_list) - 1}", kind=label)
+        return None
     # lookup by cells
     pair_count = {}
     for k in range(len(got_list)):
